@@ -27,6 +27,12 @@ type fT struct {
 	Class string // free | int | uint | bool | ulid | hash43 | hex | quoted | enum:a,b,c
 	Sub   []fT
 	Sep   string
+	// atoms only: the source expression (with the type information it is to be read with) and its text as written
+	Raw  string
+	Src  ast.Expr
+	Info *types.Info
+	Fn   *Fn
+	P    *Prog
 }
 
 func (t fT) String() string {
@@ -100,16 +106,19 @@ func (x *e5) atom(e ast.Expr) fT {
 		}
 	}
 	txt := strings.ReplaceAll(exprString(e), " ", "")
+	// the printed name of an atom must not depend on what locals are called: descriptors of known
+	// findings are matched textually
+	shown := normLocals(x.fn, x.info, e, txt)
 	var typ types.Type
 	if tv, ok := x.info.Types[e]; ok {
 		typ = tv.Type
 	}
 	if x.class != nil {
 		if name, cl := x.class(e, txt, typ); cl != "" {
-			if name == "" {
-				name = txt
+			if name == "" || name == txt {
+				name = shown
 			}
-			return fT{K: fAtom, Name: name, Class: cl}
+			return fT{K: fAtom, Name: name, Class: cl, Raw: txt, Src: e, Info: x.info, Fn: x.fn, P: x.p}
 		}
 	}
 	cl := "free"
@@ -125,7 +134,67 @@ func (x *e5) atom(e ast.Expr) fT {
 			}
 		}
 	}
-	return fT{K: fAtom, Name: txt, Class: cl}
+	return fT{K: fAtom, Name: shown, Class: cl, Raw: txt, Src: e, Info: x.info, Fn: x.fn, P: x.p}
+}
+
+// normLocals replaces, in the printed form of e, every identifier that denotes a local variable
+// (parameter, receiver, local) by its type in angle quotes: `lbl.Name` → `‹cache.CacheKeyPostings›.Name`.
+func normLocals(fn *Fn, info *types.Info, e ast.Expr, txt string) string {
+	names := map[string]string{}
+	ast.Inspect(e, func(n ast.Node) bool {
+		if id, ok := n.(*ast.Ident); ok {
+			if o := objOf(info, id); o != nil && isLocalVar(o) {
+				role := ""
+				if fn != nil {
+					nm := namesOf(fn)
+					switch {
+					case nm.Recv != "" && recvObj(fn) == o:
+						role = "recv "
+					case isParamOf(fn, o):
+						for k, pn := range nm.Params {
+							if pn == id.Name {
+								role = fmt.Sprintf("arg%d ", k)
+							}
+						}
+					default:
+						ast.Inspect(fn.Body(), func(x ast.Node) bool {
+							if r, ok := x.(*ast.RangeStmt); ok {
+								if (r.Value != nil && objOf(info, r.Value) == o) || (r.Key != nil && objOf(info, r.Key) == o) {
+									role = "elem "
+								}
+							}
+							return true
+						})
+					}
+				}
+				names[id.Name] = "‹" + role + shortType(o.Type()) + "›"
+			}
+		}
+		return true
+	})
+	if len(names) == 0 {
+		return txt
+	}
+	var b strings.Builder
+	for i := 0; i < len(txt); {
+		if isIdentChar(txt[i]) && (i == 0 || !isIdentChar(txt[i-1])) {
+			j := i
+			for j < len(txt) && isIdentChar(txt[j]) {
+				j++
+			}
+			// not a field / method name: not preceded by '.'
+			if r, ok := names[txt[i:j]]; ok && (i == 0 || txt[i-1] != '.') {
+				b.WriteString(r)
+			} else {
+				b.WriteString(txt[i:j])
+			}
+			i = j
+			continue
+		}
+		b.WriteByte(txt[i])
+		i++
+	}
+	return b.String()
 }
 
 func constString(info *types.Info, e ast.Expr) (string, bool) {
@@ -825,6 +894,165 @@ func leadingLiteral(ts []fT) string {
 }
 
 // atomNames lists all atom names (recursively).
+// Provenance: the atom's expression with every local replaced, recursively, by what it was defined from
+// (single definitions, first results of tuple definitions, range variables by `range(<collection>)`);
+// a loop counter is followed by the loop conditions that mention it. Lets a rule ask "does request field
+// X flow into this atom" without knowing what the locals in between are called.
+func (a fT) Provenance() string {
+	if a.Src == nil || a.Info == nil || a.Fn == nil {
+		return a.Raw
+	}
+	var rec func(fn *Fn, info *types.Info, e ast.Expr, depth int) string
+	rec = func(fn *Fn, info *types.Info, e ast.Expr, depth int) string {
+		e = unparen(e)
+		switch v := e.(type) {
+		case *ast.Ident:
+			o, ok := info.Uses[v].(*types.Var)
+			if !ok || o.IsField() || depth >= 6 {
+				return v.Name
+			}
+			if d := singleDef(fn, info, o); d != nil {
+				return rec(fn, info, d, depth+1)
+			}
+			if d := singleDefTuple(fn, info, o); d != nil {
+				return rec(fn, info, d, depth+1)
+			}
+			// `x, ok := y.(T)`
+			var ta ast.Expr
+			nTA := 0
+			ast.Inspect(fn.Body(), func(n ast.Node) bool {
+				if as, ok := n.(*ast.AssignStmt); ok && len(as.Lhs) == 2 && len(as.Rhs) == 1 && objOf(info, as.Lhs[0]) == o {
+					if t, ok := unparen(as.Rhs[0]).(*ast.TypeAssertExpr); ok {
+						ta = t
+						nTA++
+					}
+				}
+				return true
+			})
+			if nTA == 1 {
+				return rec(fn, info, ta, depth+1)
+			}
+			// a parameter of a helper with exactly one call site stands for the argument passed there
+			if a.P != nil && fn.Obj != nil && isParamOf(fn, o) {
+				idx := -1
+				for k, pn := range namesOf(fn).Params {
+					if pn == v.Name {
+						idx = k
+					}
+				}
+				var caller *Fn
+				var call *ast.CallExpr
+				n := 0
+				for _, g := range a.P.AllFuncs(true) {
+					for _, u := range append([]*Fn{g}, a.P.Lits(g)...) {
+						ast.Inspect(u.Body(), func(x ast.Node) bool {
+							if _, isLit := x.(*ast.FuncLit); isLit && x != u.Node() {
+								return false
+							}
+							if c, ok := x.(*ast.CallExpr); ok && calleeOf(u.Info(), c) == fn.Obj {
+								caller, call = u, c
+								n++
+							}
+							return true
+						})
+					}
+				}
+				if n == 1 && idx >= 0 && idx < len(call.Args) {
+					return rec(caller, caller.Info(), call.Args[idx], depth+1)
+				}
+				if idx >= 0 {
+					return fmt.Sprintf("$arg%d", idx)
+				}
+			}
+			if recvObj(fn) == o {
+				return "$recv"
+			}
+			// the symbolic variable of a type switch: one implicit object per clause
+			ts := ""
+			ast.Inspect(fn.Body(), func(n ast.Node) bool {
+				sw, ok := n.(*ast.TypeSwitchStmt)
+				if !ok {
+					return true
+				}
+				as, ok := sw.Assign.(*ast.AssignStmt)
+				if !ok || len(as.Rhs) != 1 {
+					return true
+				}
+				ta, ok := unparen(as.Rhs[0]).(*ast.TypeAssertExpr)
+				if !ok {
+					return true
+				}
+				for _, cl := range sw.Body.List {
+					if info.Implicits[cl] == o {
+						ts = rec(fn, info, ta.X, depth+1) + ".(" + shortType(o.Type()) + ")"
+					}
+				}
+				return true
+			})
+			if ts != "" {
+				return ts
+			}
+			out := v.Name
+			ast.Inspect(fn.Body(), func(n ast.Node) bool {
+				switch l := n.(type) {
+				case *ast.RangeStmt:
+					if l.Value != nil && objOf(info, l.Value) == o {
+						out = "range(" + rec(fn, info, l.X, depth+1) + ")"
+					}
+				case *ast.ForStmt:
+					if l.Cond != nil && mentionsObj(info, l.Cond, o) {
+						out += " forcond(" + canon(l.Cond) + ")"
+					}
+				}
+				return true
+			})
+			return out
+		case *ast.CallExpr:
+			var args []string
+			for _, x := range v.Args {
+				args = append(args, rec(fn, info, x, depth))
+			}
+			fun := canon(v.Fun)
+			if sel, ok := unparen(v.Fun).(*ast.SelectorExpr); ok {
+				if _, isPkg := info.Uses[identOf(sel.X)].(*types.PkgName); !isPkg {
+					fun = rec(fn, info, sel.X, depth) + "." + sel.Sel.Name
+				}
+			}
+			return fun + "(" + strings.Join(args, ",") + ")"
+		case *ast.SelectorExpr:
+			return rec(fn, info, v.X, depth) + "." + v.Sel.Name
+		case *ast.BinaryExpr:
+			return rec(fn, info, v.X, depth) + v.Op.String() + rec(fn, info, v.Y, depth)
+		case *ast.StarExpr:
+			return "*" + rec(fn, info, v.X, depth)
+		case *ast.UnaryExpr:
+			return v.Op.String() + rec(fn, info, v.X, depth)
+		case *ast.IndexExpr:
+			return rec(fn, info, v.X, depth) + "[" + rec(fn, info, v.Index, depth) + "]"
+		case *ast.SliceExpr:
+			return rec(fn, info, v.X, depth) + "[:]"
+		case *ast.TypeAssertExpr:
+			if v.Type != nil {
+				return rec(fn, info, v.X, depth) + ".(" + shortType(info.TypeOf(v.Type)) + ")"
+			}
+		}
+		return canon(e)
+	}
+	return rec(a.Fn, a.Info, a.Src, 0)
+}
+
+// atomList flattens the atoms of a term list.
+func atomList(ts []fT) []fT {
+	var out []fT
+	for _, t := range ts {
+		if t.K == fAtom {
+			out = append(out, t)
+		}
+		out = append(out, atomList(t.Sub)...)
+	}
+	return out
+}
+
 func atomNames(ts []fT, out map[string]bool) {
 	for _, t := range ts {
 		if t.K == fAtom {
